@@ -64,6 +64,9 @@ def _verify_one(args):
             from specs.metrics import METRICS
             out["kind"] = "axioms"
             nm = qualname[7:]
+            fname = vecexpr.registry(repo).get(nm)
+            if fname and ("opfython.math.distance." + fname) in repo.functions:
+                out["hash"] = normalized_hash(repo.function("opfython.math.distance." + fname)[0])
             obs = vecexpr.verify_axioms(repo, nm, METRICS[nm])
             if "tri" in METRICS[nm]["axioms"].split() and nm in vecexpr.TRIANGLE_POINTWISE:
                 obs += vecexpr.verify_triangle(repo, nm, METRICS[nm])
@@ -87,11 +90,20 @@ def _verify_one(args):
         else:
             c = REGISTRY[qualname]
             fn, _, _ = repo.function(qualname)
-            out["hash"] = normalized_hash(fn)
             obs = []
+            inl = {}
             for cfg in c.configs:
                 ex = Exec(repo, qualname, config=cfg)
                 obs += ex.verify()
+                inl.update(getattr(ex, "inlined_fns", {}))
+            # the item's fingerprint: its own body plus the bodies inlined into its verification conditions (property
+            # getters / setters, Node.__init__, helpers without a contract)
+            import hashlib
+            hh = hashlib.sha1(normalized_hash(fn).encode())
+            for k in sorted(inl):
+                hh.update(k.encode())
+                hh.update(normalized_hash(inl[k]).encode())
+            out["hash"] = hh.hexdigest()[:16]
         out["_obs"] = obs
         for ob in obs:
             if timeout_ms is None:
